@@ -308,6 +308,9 @@ func (t *tr) block(list []ast.Stmt, depth int, top bool) ([]string, bool) {
 	switch x := s.(type) {
 	case *ast.DeclStmt:
 		gd, ok := x.Decl.(*ast.GenDecl)
+		if ok && gd.Tok == token.CONST {
+			return cont(nil) // a local constant: its uses are constant expressions, translated by value
+		}
 		if !ok || gd.Tok != token.VAR {
 			return skip()
 		}
